@@ -31,6 +31,12 @@ FRAG_IMITATING = [
     '<newNumberVector device="a" name="b"><oneNumber name="x">' + "9" * 60 + "e" + "9" * 60 + '</oneNumber></newNumberVector>',
     '<newSwitchVector device="a" name="b"><oneSwitch name="x">' + "On" * 40 + '</oneSwitch></newSwitchVector>',
     '<setLightVector device="a" name="b" state="' + "Ok " * 30 + '"/>',
+    # complete elements with MIXED content: stray characters right after the opening tag of a vector, in front of a child that is
+    # not acceptable - the element as a whole is corrupt and must not come out as a message of any shape
+    '<newSwitchVector device="a" name="b">@@<oneSwitch name="x">Maybe</oneSwitch></newSwitchVector>',
+    '<setTextVector device="a" name="b" state="Ok">stray<oneFoo name="x"/></setTextVector>',
+    '<defNumberVector device="a" name="b" state="Ok" perm="rw">x<defNumber name="n" format="%f" min="0" max="1" step="0">abc</defNumber></defNumberVector>',
+    '<newTextVector device="a" name="b">&amp;<oneText>no name</oneText></newTextVector>',
 ]
 
 FRAG_PLAIN = [
